@@ -131,22 +131,35 @@ def run_one(ctx, rng, cands, d, status):
         for rep in range(2):
             chunks, sname = gen_schedule(rng, data)
             words = [rng.choice(WORDS) for _ in range(rng.randint(0, 5))]
+            extra_plan = {}
+            pre_opts = []
+            if rep == 1 and rng.random() < 0.35:
+                # the program closes / redirects its stderr and keeps running for a while before it exits
+                extra_plan = {'close_stderr': True, 'linger_ms': rng.choice([300, 1300, 1600])}
+                sname += '+close-stderr-linger%d' % extra_plan['linger_ms']
+            if rng.random() < 0.4:
+                # a libwayland directory that exists (must come before the marker): goes first on LD_LIBRARY_PATH
+                libdir = os.path.join(d, rng.choice(['libwl', 'lib wl']))
+                os.makedirs(libdir, exist_ok=True)
+                pre_opts = ['--libwayland', libdir]
             report = os.path.join(d, 'report.json')
             if os.path.exists(report):
                 os.unlink(report)
             planf = os.path.join(d, 'plan.json')
-            json.dump({'report': report, 'stderr_chunks': [[c.hex(), dl] for c, dl in chunks], 'stdout_text': MARKER, 'exit': status}, open(planf, 'w'))
+            json.dump(dict({'report': report, 'stderr_chunks': [[c.hex(), dl] for c, dl in chunks], 'stdout_text': MARKER, 'exit': status}, **extra_plan), open(planf, 'w'))
             outf = os.path.join(d, 'stdout.txt')
             e3 = dict(e2, VERIF_CHILD_PLAN=planf)
             with open(outf, 'wb') as of:
-                r = subprocess.run(main + [rng.choice(['-r', '--run']), '/venv/bin/python', os.path.join(HELPERS, 'child.py')] + words,
+                r = subprocess.run(main + pre_opts + [rng.choice(['-r', '--run']), '/venv/bin/python', os.path.join(HELPERS, 'child.py')] + words,
                                    input=b'quit\n', stdout=of, stderr=subprocess.PIPE, timeout=300, env=e3)
             ctx.ev()
             ctx.count('processes')
             ctx.count('run_mode_processes')
             ctx.setadd('schedules', sname)
             ctx.setadd('exit_statuses', status)
-            sched = {'mode': '-r', 'schedule': sname, 'chunks': len(chunks), 'status': status, 'words': words}
+            sched = {'mode': '-r', 'schedule': sname, 'chunks': len(chunks), 'status': status, 'words': words, 'pre_opts': pre_opts}
+            if extra_plan:
+                ctx.count('runs_closing_stderr_early')
             if len(chunks) > 1 or status:
                 ctx.sig([shash, sname, h64([len(c) for c, _ in chunks]), status])
             out_text = open(outf, 'rb').read().decode('utf-8', 'replace')
@@ -158,7 +171,11 @@ def run_one(ctx, rng, cands, d, status):
             if repd['argv'] != words:
                 ctx.violation('run-argv', 'child got %r, forwarded words are %r' % (repd['argv'], words), dict(case, **sched))
             if repd['WAYLAND_DEBUG'] != '1':
-                ctx.violation('run-env', 'WAYLAND_DEBUG=%r in the child' % repd['WAYLAND_DEBUG'], dict(case, **sched))
+                ctx.violation('run-env', 'WAYLAND_DEBUG=%r in the child (options before the marker: %r)' % (repd['WAYLAND_DEBUG'], pre_opts), dict(case, **sched))
+            if pre_opts:
+                ctx.count('runs_with_libwayland_dir')
+                if not (repd.get('LD_LIBRARY_PATH') or '').startswith(pre_opts[1]):
+                    ctx.violation('run-env', 'LD_LIBRARY_PATH=%r in the child although --libwayland %r was given' % (repd.get('LD_LIBRARY_PATH'), pre_opts[1]), dict(case, **sched))
             if repd['stdout'] != [st.st_dev, st.st_ino]:
                 ctx.violation('run-stdout-touched', "the child's stdout is not wayland-debug's stdout (fstat %r vs %r)" % (repd['stdout'], [st.st_dev, st.st_ino]), dict(case, **sched))
             if MARKER not in out_text:
